@@ -788,6 +788,16 @@ func hostC16(o *out, replay string) {
 		impl, pred := c16Chatty(proto, i)
 		o.emit("!C16.chatty proto="+proto, impl, pred)
 	}
+	// a long socket directory: the address on the line is the address the socket lives at
+	for _, n := range []int{60, 80, 88} { // (88 + "/plugin" + ten digits = 105: just inside the 107 bytes a Unix socket address holds)
+		impl, pred := runDeepSocketDir(n)
+		o.emit(fmt.Sprintf("!C16.deep-socket-dir len=%d", n), impl, pred)
+	}
+	// the refusal when even the warning cannot be written
+	for _, ce := range [][]string{{}, {kitCookieKey + "=" + kitCookieVal + "x"}, {kitCookieKey + "="}} {
+		impl, pred := runRefusalWithFullStderr(ce)
+		o.emit("!C16.refusal-stderr-full cookie="+hxs(strings.Join(ce, " ")), impl, pred)
+	}
 	// a binary built on ServeMux, started by hand (no cookie / a wrong one), with every kind of command line
 	for _, args := range [][]string{{}, {"kit"}, {"nosuch"}, {"--help"}, {"kit", "extra"}} {
 		for _, ce := range [][]string{{}, {kitCookieKey + "=" + kitCookieVal + "x"}, {kitCookieKey + "="}} {
